@@ -973,13 +973,15 @@ class Frame(object):
 
         # Calculate the bounding box, to optimize signal insertion calculation
         px_width_offset = 2 * width / self.df
-        px_drift_offset = self.dt * (self.tchans - 1) * drift_rate / self.df
-        if doppler_smearing:
-            px_drift_offset += drift_rate * self.dt / self.df
+        # Offsets of the path f_start + drift_rate * t from f_start, in channels, over the frame's 
+        # own time axis (which need not start at 0 or be evenly spaced, e.g. after 
+        # Cadence.consolidate()); one more time sample when smearing
+        path_ts = self.ts_ext if doppler_smearing else self.ts
+        px_path_offsets = drift_rate * path_ts / self.df
 
         # Round outwards; the upper index is exclusive, so go one past the last pixel
-        bounding_start_index = start_index + int(np.floor(min(px_drift_offset, 0) - px_width_offset))
-        bounding_stop_index = start_index + int(np.ceil(max(px_drift_offset, 0) + px_width_offset)) + 1
+        bounding_start_index = start_index + int(np.floor(np.min(px_path_offsets) - px_width_offset))
+        bounding_stop_index = start_index + int(np.ceil(np.max(px_path_offsets) + px_width_offset)) + 1
 
         # Clip both ends to the frame (the box may lie wholly outside the band)
         bounding_min_index = min(max(bounding_start_index, 0), self.fchans)
